@@ -108,13 +108,15 @@ def process_zone(tz, suffix):
 ID_STYLE = ["short"]
 
 
-def run_case(kind, n, incs, exps, zsk, pol_kw, now=NOW, shuffle=False, desc=None):
+def run_case(kind, n, incs, exps, zsk, pol_kw, now=NOW, shuffle=False, desc=None, fixed_ids=None):
     global accepts
     # bundle ids are opaque: unique, but free to share a long common prefix (operators name them by quarter) or to be UUIDs
     style = ID_STYLE[0] if ID_STYLE[0] != "mixed" else R.choice(["short", "named", "uuid", "suffix"])
     tag_ = R.randrange(10**6)
     ids = [{"short": f"b{j:02d}-{tag_}", "named": f"2027Q1-bundle-{tag_}-{j}", "uuid": f"{R.randrange(16**8):08x}-{R.randrange(16**4):04x}-4000-8000-{j:012x}",
             "suffix": f"{'x' * 40}{j}"}[style] for j in range(n)]
+    if fixed_ids is not None:
+        ids = list(fixed_ids)
     bundles = [{"id": ids[j], "inc": incs[j], "exp": exps[j], "keys": [DUMMY], "sigs": [DUMMY_SIG]} for j in range(n)]
     order = list(range(n))
     if shuffle:
@@ -236,6 +238,15 @@ try:
             incs, exps = baseline(1, validity=D(days=19))
             kw = pol_for(1, None, False, check_cycle_length=flag, min_cycle_inception_length=lo, max_cycle_inception_length=hi)
             run_case("one-bundle-cycle", 1, incs, exps, zsk_for(False), kw, NOW, desc={"min_cycle": str(lo), "max_cycle": str(hi), "check_cycle_length": flag})
+
+    # A1b. bundles that expire at the same instant are neighbours in the order of their inceptions, whatever their ids
+    for ida, idb in (("a-first", "b-second"), ("b-first", "a-second"), ("0000", "zzzz"), ("zzzz", "0000")):
+        for ov_max, expect_note in ((D(days=16), "15 d overlap inside"), (D(days=14), "15 d overlap above the maximum"), (D(days=25), "wide bounds")):
+            t_ = NOW + D(days=5)
+            incs, exps = [t_, t_ + D(days=6)], [t_ + D(days=21), t_ + D(days=21)]
+            zsk = ksrxml.default_zsk_policy(min_validity=D(days=15), max_validity=D(days=21), min_overlap=D(days=9), max_overlap=ov_max)
+            kw = pol_for(2, {"check_bundle_overlap", "signature_validity_match_zsk_policy", "signature_check_expire_horizon"}, False)
+            run_case("equal-expirations", 2, incs, exps, zsk, kw, NOW, shuffle=R.random() < 0.5, desc={"ids": [ida, idb], "note": expect_note}, fixed_ids=[ida, idb])
 
     # A2. the same bounds with timestamps written without an offset (the form of the archived KSRs) and with the process in some other time zone
     for tz, suffix in ((None, ""), ("VRF+05", ""), ("VRF-05:30", ""), ("VRF+05", "+00:00"), ("VRF-11", "")):
